@@ -67,7 +67,7 @@ def jobs(tier, seed):
                   reach=["C02.rerun.call-log==RunSpec(OUT2)", "C02.rerun.step-statuses==RunSpec(OUT2)"],
                   min_paths=50, cost=300, validate=150))
     js.append(Job("rerun.noreset", "vlib.stage1:h_stage1",
-                  {"shapes": [F([S(2)], bg=1)], "opts": {"out_dom": {"*": [0, 4]}},
+                  {"shapes": [F([S(2)], bg=1)], "opts": {"out_dom": {"*": [0, 4]}, "out_dom2": {"*": [0, 5]}},
                    "checks": ["steps", "rerun"]},
                   reach=["C02.rerun.call-log==RunSpec(OUT2)", "C02.rerun.step-statuses==RunSpec(OUT2)"],
                   min_paths=50, cost=300, validate=150))
